@@ -474,7 +474,7 @@ func c15Propagation(c *Ctx, fns []*ssa.Function, _ int) {
 // walkCallbackIn: the fs.WalkDir call's callback (a closure) is one of the target functions.
 func walkCallbackIn(cs callSite, targets map[*ssa.Function]bool) bool {
 	for _, a := range cs.common.Args {
-		if mc, ok := a.(*ssa.MakeClosure); ok {
+		if mc, ok := resolve(a).(*ssa.MakeClosure); ok {
 			if targets[mc.Fn.(*ssa.Function)] {
 				return true
 			}
